@@ -82,8 +82,10 @@ def rule_recurse(ctx, R):
     R.floor("recursive_components", len(rec))
     for comp in rec:
         cs = set(comp)
-        if len(comp) == 1 and comp[0] in RECURSION_OVER_SERVER_BUILT_DATA:
-            R.inst(comp[0], "scc:" + comp[0].split("::")[-1], {"functions": [comp[0].split("::")[-1]], "exempt": RECURSION_OVER_SERVER_BUILT_DATA[comp[0]]})
+        # the exempt function alone, or together with closures written inside it (try_for_each(|e| f(e)))
+        named = [f for f in comp if "{closure" not in f]
+        if len(named) == 1 and named[0] in RECURSION_OVER_SERVER_BUILT_DATA and all(f == named[0] or f.startswith(named[0] + "::{closure") for f in comp):
+            R.inst(named[0], "scc:" + named[0].split("::")[-1], {"functions": [named[0].split("::")[-1]], "exempt": RECURSION_OVER_SERVER_BUILT_DATA[named[0]]})
             continue
         checkers = set()
         n_edges = 0
@@ -301,8 +303,64 @@ def rule_lock_l1(ctx, R):
                     R.inst(fn, "held:%s" % cls.split("::")[-1], {"function": fn, "lock": cls, "held_at": b.loc(i), "reacquired_via": via})
                     R.finding(fn, "reentrant:%s:via:%s" % (cls.split("::")[-1], via.split("::")[-1] if via != "direct" else "direct"),
                               "%s acquires %s (line %d) and, while holding it, %s acquires it again (line %d): the command thread deadlocks on itself" % (fn.split("::")[-1], cls, b.bb_line(i), "directly" if via == "direct" else "a call to " + via.split("::")[-1], b.bb_line(x)), b.loc(x))
+    # higher-order lock holders: a function that runs a caller-supplied closure while it holds a
+    # lock (ShardedConnections::with_connection).  Whatever the closure reaches must not take
+    # that lock again -- also not for another key of the same sharded structure: two ids can
+    # share a shard.
+    hof = {}
+    for fn, lst in acq.items():
+        b = ctx.prog.bodies[fn]
+        for (i, cls, mode, g) in lst:
+            reg, cut = held_region(b, i, g)
+            for x in reg:
+                t = b.term(x)
+                if t["k"] != "call":
+                    continue
+                direct_call = re.search(r"as std::ops::(FnOnce|FnMut|Fn)<.*>>::call(_once|_mut)?$", t["f"] or "") and t["a"] and not op_is_const(t["a"][0]) and op_place(t["a"][0])["l"] <= b.nargs
+                # or the parameter closure is handed on to a std adaptor that runs it (Option::map(f))
+                forwarded = any((not op_is_const(a)) and any(re.match(r"^(F|G|impl (Fn|FnMut|FnOnce).*)$", b.locals[p_]) for p_ in prov.operand_origins(b, a).params()) for a in t["a"])
+                if direct_call or forwarded:
+                    hof.setdefault(fn, set()).add(cls)
+    # wrappers that hand their own closure parameter on to a lock-holding higher-order function
+    # (trait impls forwarding to the inherent method), and trait methods with such impls
+    for _round in range(4):
+        grew = False
+        for fn, b in ctx.prog.bodies.items():
+            for x, t in b.calls():
+                c = callee(t)
+                tgts = [c] + sorted(ctx.cg.dyn.get(tuple((t["def"] or "").rsplit("::", 1)), ())) if not t.get("res") else [c]
+                for c_ in tgts:
+                    if c_ in hof and any((not op_is_const(a)) and any(re.match(r"^(F|G|impl (Fn|FnMut|FnOnce).*)$", b.locals[p_]) for p_ in prov.operand_origins(b, a).params()) for a in t["a"]):
+                        if not hof[c_] <= hof.get(fn, set()):
+                            hof.setdefault(fn, set()).update(hof[c_]); grew = True
+        if not grew:
+            break
+    for (tr, m), impls in ctx.cg.dyn.items():
+        for im in impls:
+            if im in hof:
+                hof.setdefault("%s::%s" % (tr, m), set()).update(hof[im])
+    nh = 0
+    for fn, b in sorted(ctx.prog.bodies.items()):
+        if "::tests::" in fn:
+            continue
+        for x, t in b.calls():
+            c = callee(t)
+            if c not in hof or not t.get("clos"):
+                continue
+            for r in t["clos"]:
+                if r not in ctx.prog.bodies:
+                    continue
+                nh += 1
+                again = {c2 for (c2, m2) in tset(r) if c2 in hof[c]}
+                R.inst(fn, "closure-under:%s" % c.split("::")[-1], {"function": fn, "at": b.loc(x), "lock_held_while_closure_runs": sorted(hof[c]), "closure_reacquires": sorted(again)} if nh % 9 == 0 or again else None)
+                if again:
+                    via = ctx.cg.path(r, {f2 for f2, l2 in acq.items() if any(c2 in again for (_, c2, _, _) in l2)}) or []
+                    R.finding(fn, "reentrant:%s:closure-under:%s" % (sorted(again)[0].split("::")[-1], c.split("::")[-1]),
+                              "%s hands %s a closure (line %d) that itself acquires %s, the lock %s holds while the closure runs: the command thread deadlocks on itself (two connection ids can share a shard)" % (
+                                  fn.split("::")[-1], c.split("::")[-1], b.bb_line(x), sorted(again)[0], c.split("::")[-1]), b.loc(x), witness=[str(v) for v in via][:6])
+    R.floor("closures_run_under_a_lock", nh)
     R.floor("lock_acquisition_sites", n)
-    R.inst("locks", "summary", {"acquisition_sites": n, "functions_with_locks": len(acq)})
+    R.inst("locks", "summary", {"acquisition_sites": n, "functions_with_locks": len(acq), "higher_order_lock_holders": sorted(hof)})
 
 
 def in_distinct_objects_branch(b, x):
